@@ -293,6 +293,51 @@ func runC18(r *vhlib.Run) {
 			}
 			c18Reader(r, c, s.Data, s.Plain, seq)
 		}
+		// Close issued when the decoder has already consumed the whole stream (internally it is
+		// at the end) while the caller has not drained the decoded output: if that Close reports
+		// success the Reader is closed, and no later Read may hand out data
+		for _, st := range []struct{ Data, Plain []byte }{{s.Data, s.Plain}, func() struct{ Data, Plain []byte } {
+			v := c.Valid(rng, 6000)
+			return struct{ Data, Plain []byte }{v.Data, v.Plain}
+		}()} {
+			for _, bs := range []int{1, 3, 50} {
+				func() {
+					defer func() {
+						if p := recover(); p != nil {
+							r.Violate("panic", fmt.Sprintf("%s.Reader: %v", c.Name, p), map[string]interface{}{"type": c.Name + ".Reader", "stream": vhlib.Hex(st.Data)})
+						}
+					}()
+					z := c.New(bytes.NewReader(st.Data))
+					got := 0
+					for steps := 0; steps < 4*len(st.Plain)+100; steps++ {
+						if in, _ := z.Offsets(); in == int64(len(st.Data)) {
+							break
+						}
+						n, err := z.Read(make([]byte, bs))
+						got += n
+						if err != nil {
+							return
+						}
+					}
+					in, _ := z.Offsets()
+					r.Eval("close-with-pending-output:"+c.Name, true, st.Data, []byte{byte(bs)})
+					if in != int64(len(st.Data)) || got >= len(st.Plain) {
+						return
+					}
+					if z.Close() != nil {
+						return
+					}
+					for k := 0; k < 3; k++ {
+						n, err := z.Read(make([]byte, 64))
+						if n > 0 || err == nil {
+							r.Violate("read-after-close-returns-data", fmt.Sprintf("%s.Reader: all %d input bytes consumed, %d of %d output bytes delivered, Close returned nil, then Read returned (%d, %v)", c.Name, len(st.Data), got, len(st.Plain), n, err),
+								map[string]interface{}{"type": c.Name + ".Reader", "stream": vhlib.Hex(st.Data), "read_size": bs})
+							return
+						}
+					}
+				}()
+			}
+		}
 	}
 	{
 		sink, plain, _ := makeXFStream(xwCfg{Level: 6, ChunkSize: 8, Index: 2}, []xwOp{{Kind: 'w', Data: vhlib.RandBytes(rng, 30)}, {Kind: 'c'}})
